@@ -172,7 +172,14 @@ def run(tier, replay):
                 open(os.path.join(md, "db.bson"), "wb").write(data[: max(1, len(data) // 2)])
             lp = subprocess.run([exe, "load", md], capture_output=True, text=True, timeout=60)
             rep = json.loads(lp.stdout.strip().splitlines()[-1]) if lp.stdout.strip() else {"load": "error"}
-            if rep.get("load") != "ok" or (k > 1 and kind == "lost"):
+            if r.violated == "DurableOnceReturned" and kind in ("old", "lost"):
+                # nothing to reproduce on the loader: the surviving file is a well-formed earlier state.  The evidence is the
+                # order of system calls recorded from the real binary: the commit returns before the rename is durable.
+                c.violation("powerloss:acknowledged-commit-not-durable:%s" % kind,
+                            "commit %d returned success, but with the system call order recorded from the real binary (%s) the rename of the new store file is not durable at that "
+                            "point: after a power loss the store file is the %s one (CrashFS.tla, invariant DurableOnceReturned); FileStore.Load on that file: %s" % (
+                                k, " ".join(programs[k]), "previous" if kind == "old" else "missing", rep.get("load")), {"program": programs[k], "kind": kind, "load": rep})
+            elif rep.get("load") != "ok" or (k > 1 and kind == "lost"):
                 c.violation("powerloss:%s:%s" % (kind, r.violated),
                             "with the system call order recorded from the real binary (%s) a power loss can leave a %s store file (CrashFS.tla, invariant %s); the real FileStore.Load on the "
                             "materialised state: %s %s" % (" ".join(programs[k]), kind, r.violated, rep.get("load"), rep.get("error", "")), {"program": programs[k], "kind": kind, "load": rep})
